@@ -31,8 +31,9 @@ def main():
         env = dict(os.environ, GOFLAGS='-mod=mod', GOPROXY='off', GOSUMDB='off', GOTOOLCHAIN='local',
                    VERIF_TIER=tier, VERIF_SEED=str(seed))
         env[c['out']] = out
-        p = subprocess.run(['go', 'test', '-overlay', ov, '-vet=off', '-timeout', c['timeout'], '-count=1', '-run', c['test'], c['pkg']],
-                           cwd='/repo', env=env, capture_output=True, text=True)
+        # address-space limit: a change that lets a decoded key size an allocation must fail fast, not swap the machine
+        cmd = 'ulimit -v 25000000; exec go test -overlay %s -vet=off -timeout %s -count=1 -run %s %s' % (ov, c['timeout'], c['test'], c['pkg'])
+        p = subprocess.run(['bash', '-c', cmd], cwd='/repo', env=env, capture_output=True, text=True)
         log = (p.stdout + p.stderr)[-6000:]
         res = None
         if os.path.exists(out) and os.path.getsize(out) > 0:
